@@ -113,6 +113,7 @@ def _explore(shape, t_idx, jumps, draws, assert_fn, prepare=None):
     table = tables(shape["S"])[t_idx]
     try:
         ctx = run_search(shape, table, jumps, draws, prepare, shape.get("mode", "auto"))
+        observe_spec(ctx)
         with patched_env(ctx.clock, ctx.tape):
             assert_fn(ctx)
         return True
@@ -120,6 +121,28 @@ def _explore(shape, t_idx, jumps, draws, assert_fn, prepare=None):
         LAST_FAILURE = "%s | table %r db=%s opt=%s late readings %r draws %r" % (
             e, table, shape["db"], shape["opt"], getattr(ctx, "clock", None) and ctx.clock.late_at, getattr(ctx, "tape", None) and ctx.tape.used)
         return False
+
+
+def observe_spec(ctx):
+    """Tally what kind of run this was (evidence only)."""
+    core.observe("runs")
+    if ctx.spec is None:
+        core.observe("runs without specification")
+        return
+    core.observe("specifications")
+    kinds = set()
+    for rule in ctx.spec.rules_dict.values():
+        for r in (rule.rules if hasattr(rule, "rules") else [rule]):
+            kinds.add(type(r).__name__)
+            if type(r).__name__ == "EquivalenceRule" and type(r.original_rule).__name__ == "ReverseRule":
+                kinds.add("EquivalenceRule(ReverseRule)")
+        kinds.add(type(rule).__name__)
+    for k in kinds:
+        core.observe("specifications containing a " + k)
+    if ctx.clock.late_at:
+        core.observe("runs with a late clock reading")
+    if len(ctx.spec.rules_dict) > 3:
+        core.observe("specifications with more than 3 rules")
 
 
 def body_opt(t, assert_fn, prepare=None):
